@@ -22,7 +22,8 @@ type instCtx struct {
 	qf       []*Term // quantifier-free assertions
 	seenInst map[string]bool
 	budget   int
-	depth    int              // >0 while processing instances
+	shifts   int                // skolems whose +1/-1 neighbours were added as candidates
+	depth    int                // >0 while processing instances
 	arith    map[string][]*Term // candidates for variables that occur under arithmetic: skolems of the original assertions, loop counters, hints
 }
 
@@ -251,6 +252,14 @@ func (ic *instCtx) process(f *Term) {
 			// skolems of the original assertions and of first-level instances
 			// (e.g. the witness of an inner exists) are candidates in the next round
 			ic.addArith(sk)
+			if ic.depth == 0 && sk.Sort.Kind == SInt && ic.shifts < 4 {
+				// neighbours of a skolem index: invariants of the shape
+				// "s'[i] == s[i+1]" (queue pop, delete-at-front) need the
+				// hypothesis at sk+1 / sk-1
+				ic.shifts++
+				ic.addArith(mk("+", IntSort, sk, IntLit(1)))
+				ic.addArith(mk("-", IntSort, sk, IntLit(1)))
+			}
 		}
 	}
 	rest := pre[i:]
